@@ -37,7 +37,7 @@ fn other_code<A: Cx>(d: &mut Drv<A>, c: u8) -> u8 {
 pub fn run<A: Cx>(d: &mut Drv<A>, focus: &str, scale: usize) {
     let w = A::BITS as usize;
     let codes = d.codes();
-    let comp = matches!(A::NAME, "dna" | "iupac" | "mdna" | "miupac" | "degen");
+    let comp = matches!(A::NAME, "dna" | "iupac" | "mdna" | "miupac" | "degen" | "x3");
     for (i, n) in sweep_lens(scale, w).into_iter().enumerate() {
         let off = (i * 7 + 3) % 67;
         let t = d.rand_syms(off + n + 2);
